@@ -20,7 +20,7 @@ ENTRIES = ["take_step", "advance", "run_for", "get_parameter", "get_probabilitie
            "get_interval", "get_marginal", "mode", "save", "matrix_plot", "trace_plot", "plot_diagnostics"]
 FLOORS = {"key-agreement": 6, "reload-defined": 40, "save-defined": 5, "restored-value-flow": 4,
           "state-persisted": 7, "key-pairing": 4,
-          "stack-roundtrip": 2, "derived-consistent": 5, "slot-reselected": 1}
+          "stack-roundtrip": 2, "derived-consistent": 5, "slot-reselected": 1, "reloaded-limit-hook": 3}
 
 
 def load_context(prog, ci):
@@ -360,7 +360,13 @@ def _slot_reselected(prog, pc, ld, var, rel):
 
 
 def run(prog, tier):
+    # a reloaded sampler continues like the saved one only if the hook that enforces its limits is bound exactly when limits
+    # are restored - on the constructor path load() takes too (no starting positions yet): the clause C09 shares with C04
+    from .common import borrow
+    shared = borrow(prog, tier, "C04", {"slot-binding"}, "reloaded-limit-hook",
+                    "load() rebuilds the object through the constructor; the limit-enforcing slot must be bound on that path as well")
     obs, info = [], []
+    obs.extend(shared)
     ts = Typestate(prog)
 
     # ------------------------------------------------------------ Parameter / EpsilonSelector pairs
